@@ -3,14 +3,33 @@ C16 — Recovery from seed finds every used address within the look-ahead window
 Property theorems about `Recovery` (model of wallet/recovery.go BranchRecoveryState, expandScopeHorizons,
 RecoveryManager.Resurrect and wallet.go locateBirthdayBlock).  Proofs in Lemmas/RecoveryLemmas.lean.
 
-What is proved for ALL inputs: the branch-horizon clause (every window, every set of invalid children, every
-reachable branch state, also after Resurrect) and the birthday clauses (every timestamp sequence, birthday, delta).
-What is NOT proved: `C16_complete` for the whole batch loop (`recover`: expandAll → filterBlocks → applyFound, any
-batching, any resume points).  The loop is modelled (Model/Recovery.lean) and compared with the real wallet on
-generated chains, and the driver checks on every case that the result is independent of the resume points; the
-inductive proof over the block list is missing.  `C16_complete_step_partial` below is the per-branch core of it.
+What is proved for ALL inputs: `C16_complete` for the whole batch loop (`recover`: expandAll → filterBlocks →
+applyFound, every window, every chain satisfying the look-ahead hypothesis, every set of invalid children, every batch
+size, every set of resume points), `C16_complete_resumed_partial` (a later recovery over an extended chain, possibly
+with another window; partial: no leased outputs / unmined transactions at the restart — the code misses spends of such
+outputs, `C16_resumed_misses_spend_of_hidden_output`), the branch-horizon clause (every window, every set of invalid children, every reachable branch
+state, also after Resurrect) and the birthday clauses (every timestamp sequence, birthday, delta).
+Proofs: Lemmas/RecoveryLoop.lean (filter, horizon, extendFound, addRelevantTx) and Lemmas/RecoveryComplete.lean
+(loop invariant `PInv`/`MInv`, blocks, batches, Resurrect).
+
+The look-ahead hypothesis is `LookAhead` (Lemmas/RecoveryLoop.lean): the payments of a block are all measured
+against the next index after the EARLIER blocks (`nextAfter`), exactly as the property says.  That this is the right
+reading — the real loop does not re-filter a block after a find in the same block (`batch = batch[BatchIndex+1:]`) —
+is shown by `C16_same_block_jump_is_missed`.
+
+INVALID CHILDREN (`invalid`, `inv` below): the model's `MarkInvalidChild` path is what the code INTENDS, not what it
+does for a real invalid child.  `expandScopeHorizons` (wallet/wallet.go:968, :998) and `Resurrect`
+(wallet/recovery.go:88/90, 108/110) test `err == hdkeychain.ErrInvalidChild`, but `ScopedKeyManager.DeriveFromKeyPath`
+(waddrmgr/scoped_manager.go:728) gets the error from `deriveKey` (scoped_manager.go:404-412), which wraps it:
+`managerError(ErrKeyChain, str, err)`.  The comparison is therefore never true; a real invalid child (probability
+2^-127 per index, cannot be provoked with real keys) falls into `case err != nil: return err` and ABORTS recovery —
+`syncWithChain` fails and is retried for ever.  So for a non-empty `invalid` the theorems describe the repaired code
+(repo-patches/fix-C16-invalid-child-error-match.diff: `errors.Is`, `ManagerError` has `Unwrap`); for the code as it is
+they hold with `invalid = fun _ => []`, which is every wallet anybody will ever see.  `BranchRecoveryState` itself
+(ExtendHorizon / NumInvalidInHorizon / MarkInvalidChild) is exercised with invalid children through its exported API.  Locked/unlocked: the model has no lock state because the real recovery
+behaves identically in both (compared by the engine), so the theorem covers both.
 -/
-import BtcwVerif.Lemmas.RecoveryLemmas
+import BtcwVerif.Lemmas.RecoveryComplete
 namespace Recovery
 
 /-- After `expandScopeHorizons` every valid child index below `nextUnfound + window` is watched, at least `window`
@@ -39,7 +58,7 @@ theorem C16_resume_horizon (w : Nat) (inv : List Nat) (count : Nat) :
 
 /-- Per-branch core of completeness: if a block pays index `i` on a branch whose state is expanded and `i` is within
     the look-ahead hypothesis (`i < nextUnfound + window`, `i` valid), then `i` is in the watched set handed to
-    `FilterBlocks`, hence found.  (The lift to the whole loop is the missing part of `C16_complete`.) -/
+    `FilterBlocks`, hence found.  (Kept for reference; the whole loop is `C16_complete` below.) -/
 theorem C16_complete_step_partial (inv : List Nat) (b : Branch) (h : BranchOK inv b) (i : Nat)
     (hi : i < b.nextUnfound + b.window) (hv : Valid inv i) : i ∈ (expand inv b).addrs := by
   have := branch_horizon inv b h
@@ -47,6 +66,150 @@ theorem C16_complete_step_partial (inv : List Nat) (b : Branch) (h : BranchOK in
   apply h4 i _ hv
   have hw : (expand inv b).window = b.window := (expand_spec inv b h).2.2.1
   rw [h2, hw]; exact hi
+
+/-! ### Completeness of the whole recovery loop -/
+
+/-- The conclusion of C16 for a final state `st` after the chain `c`. -/
+def Complete (scopes : List Nat) (c : Chain) (st : State) : Prop :=
+  -- every used address of the recovered scopes is found (marked used) and the branch's next index is above it
+  (∀ k ∈ paidKeys (allTxs c), scopes.contains k.scope = true →
+      k ∈ st.used ∧ k.index < st.nextOf (k.scope, k.internal)) ∧
+  -- every transaction paying to or spending from them is recorded, in its block
+  (∀ h blk, (h, blk) ∈ c → ∀ tx ∈ blk,
+      ((∃ o ∈ tx.outs, isW scopes o = true) ∨ (∃ op ∈ tx.ins, op ∈ wops scopes (allTxs c))) → (tx.id, h) ∈ st.txs) ∧
+  -- the credits are exactly the wallet outputs of the chain, spent iff the chain spends them; correct balance
+  st.credits = specCredits scopes (allTxs c) ∧
+  balance st = ledgerBalance scopes (allTxs c)
+
+theorem complete_of_pinv {scopes : List Nat} {c : Chain} {st : State} (hp : PInv scopes c c st) :
+    Complete scopes c st := by
+  refine ⟨fun k hk hs => ⟨(hp.paid k hk hs).2, (hp.paid k hk hs).1⟩, ?_, hp.credits,
+    balance_spec scopes _ st hp.credits hp.no_lease hp.no_unmined⟩
+  intro h blk hmem tx htx ht
+  apply hp.txs_rec h blk hmem tx htx
+  simp only [touches, Bool.or_eq_true, List.any_eq_true, List.contains_iff_mem]
+  exact ht
+
+/-- C16, whole loop.  For every window `W` (for `W = 0` the hypothesis admits no payment at all), every set of
+    invalid child indices, every chain that is well-formed (`ChainWF`: unique transaction ids, wallet outputs are
+    spent only by later transactions and at most once, paid child indices are valid) and satisfies the look-ahead
+    hypothesis, every batch size and every set of resume points (`cuts n` = the process is interrupted after the
+    n-th batch and resumed through `Resurrect`): recovery from seed finds every used address, records every
+    transaction paying to or spending from them, ends with exactly the right credits and balance, and leaves each
+    branch's next index above the highest used one.
+    (`recover` starts from the empty database of a wallet just created from its seed and nothing but recovery acts on
+    it between the resume points: no output is leased, no unmined transaction is stored — see
+    `C16_complete_resumed_partial` for what happens otherwise.) -/
+theorem C16_complete (invalid : BranchId → List Nat) (W batchSize : Nat) (scopes : List Nat) (c : Chain)
+    (cuts : Nat → Bool) (hwf : ChainWF scopes invalid c) (hla : LookAhead W scopes c) :
+    Complete scopes c (recover invalid W batchSize scopes c cuts) :=
+  complete_of_pinv (recover_inv hwf hla batchSize cuts).1
+
+/-- A later recovery (wallet restarted when the chain has grown by `rest`, possibly with another window `W'`),
+    starting from what ANY complete earlier run left in the database (`PInv`, e.g. `C16_recover_leaves_pinv`): the
+    conclusion holds for the whole chain, provided the NEW blocks satisfy the look-ahead hypothesis with `W'`
+    relative to everything before them (`LookAheadFrom … p.length`; nothing is asked of the old blocks again).
+    PARTIAL: `PInv` includes `no_lease` / `no_unmined` — at the time of the restart no recovered output is leased and
+    the store holds no unmined transaction.  Without that the real code (and the model) misses spends:
+    `C16_resumed_misses_spend_of_hidden_output` (defect, wallet.go:732 passes `UnspentOutputs` to `Resurrect`). -/
+theorem C16_complete_resumed_partial (invalid : BranchId → List Nat) (W' batchSize : Nat) (scopes : List Nat) (p rest : Chain)
+    (cuts : Nat → Bool) (st0 : State) (hp : PInv scopes p p st0) (hwf : ChainWF scopes invalid (p ++ rest))
+    (hla : LookAheadFrom W' scopes p.length (p ++ rest)) :
+    Complete scopes (p ++ rest)
+      (recoverChain invalid batchSize (rest.length + 1) (resurrect invalid { st0 with window := W' }) rest cuts 0) := by
+  obtain ⟨hp1, hm1⟩ := resurrect_inv (invalid := invalid) (W := W') (c := p ++ rest) (p := p) (q := rest) rfl
+    (pinv_window W' (pinv_extend hwf hp)) rfl
+  exact complete_of_pinv
+    (recoverChain_spec hwf hla batchSize cuts (rest.length + 1) rest p _ 0 rfl (Nat.le_refl _) (Nat.lt_succ_self _) hp1 hm1).1
+
+/-- …and a finished `recover` leaves such a database. -/
+theorem C16_recover_leaves_pinv (invalid : BranchId → List Nat) (W batchSize : Nat) (scopes : List Nat) (c : Chain)
+    (cuts : Nat → Bool) (hwf : ChainWF scopes invalid c) (hla : LookAhead W scopes c) :
+    PInv scopes c c (recover invalid W batchSize scopes c cuts) :=
+  (recover_inv hwf hla batchSize cuts).1
+
+/-- The hypotheses are decidable: `checkWF` / `checkLA` (run by the driver on every generated chain) imply them. -/
+theorem C16_complete_checked (invalid : BranchId → List Nat) (W batchSize : Nat) (scopes : List Nat) (c : Chain)
+    (cuts : Nat → Bool) (h1 : checkWF scopes invalid c = true) (h2 : checkLA W scopes c = true) :
+    Complete scopes c (recover invalid W batchSize scopes c cuts) :=
+  C16_complete invalid W batchSize scopes c cuts (checkWF_sound scopes invalid c h1) (checkLA_sound W scopes c h2)
+
+/-! Non-vacuity and tightness.  Window 2, scope 0.  Block 1: tx 1 pays external index 1 (a jump of W-1 = 1 over
+    index 0).  Block 2: tx 2 spends that output and pays internal index 0 and external index 3 (= next index 2 + W − 1);
+    tx 3 (same block) spends tx 2's change.  Child 2 of the external branch is invalid. -/
+def exInvalid : BranchId → List Nat := fun br => if br = (0, false) then [2] else []
+def exChain : Chain :=
+  [(1, [⟨1, [], [⟨some ⟨0, false, 1⟩, 50⟩, ⟨none, 7⟩]⟩]),
+   (2, [⟨2, [(1, 0)], [⟨some ⟨0, true, 0⟩, 30⟩, ⟨some ⟨0, false, 3⟩, 15⟩]⟩, ⟨3, [(2, 0)], [⟨none, 29⟩]⟩])]
+
+example : ChainWF [0] exInvalid exChain := checkWF_sound _ _ _ (by decide)
+example : LookAhead 2 [0] exChain := checkLA_sound _ _ _ (by decide)
+example : ledgerBalance [0] (allTxs exChain) = 15 := by decide
+example : balance (recover exInvalid 2 1 [0] exChain (fun _ => true)) = 15 :=
+  (C16_complete_checked exInvalid 2 1 [0] exChain (fun _ => true) (by decide) (by decide)).2.2.2.trans (by decide)
+
+/-- …and the restart form: block 1 recovered with window 2, the wallet restarted when block 2 exists. -/
+example : Complete [0] exChain
+    (recoverChain exInvalid 1 2 (resurrect exInvalid
+      { recover exInvalid 2 1 [0] (exChain.take 1) (fun _ => false) with window := 2 }) (exChain.drop 1) (fun _ => false) 0) :=
+  C16_complete_resumed_partial exInvalid 2 1 [0] (exChain.take 1) (exChain.drop 1) (fun _ => false) _
+    (C16_recover_leaves_pinv exInvalid 2 1 [0] (exChain.take 1) (fun _ => false)
+      (checkWF_sound _ _ _ (by decide)) (checkLA_sound _ _ _ (by decide)))
+    (checkWF_sound _ _ _ (by decide)) (checkLAFrom_sound _ _ _ _ (by decide))
+
+/-- The look-ahead hypothesis is tight: a jump of `W` beyond the next index (here: window 2, first payment at
+    index 2) is outside it, and is indeed missed. -/
+theorem C16_lookahead_is_tight :
+    let c : Chain := [(1, [⟨1, [], [⟨some ⟨0, false, 2⟩, 50⟩]⟩])]
+    ¬ LookAhead 2 [0] c ∧ (recover (fun _ => []) 2 1 [0] c (fun _ => false)).used = [] := by
+  refine ⟨?_, by decide⟩
+  intro h
+  have := h [] 1 _ [] rfl ⟨0, false, 2⟩ (by decide) (by decide)
+  revert this; decide
+
+/-- Payments of ONE block are measured against the earlier blocks, not against each other: a block paying indices 1
+    and 2 with window 2 (2 is within the window of 1, but not of the next index 0 before the block) violates the
+    hypothesis, and the real loop — which does not re-filter a block after a find in it — misses index 2: its
+    address is never marked used, the next index stays at 2 and the 5 coins are not credited.  (Outside the
+    property's hypothesis as worded: "less than W beyond the highest index paid in EARLIER blocks".) -/
+theorem C16_same_block_jump_is_missed :
+    let c : Chain := [(1, [⟨1, [], [⟨some ⟨0, false, 1⟩, 50⟩]⟩, ⟨2, [], [⟨some ⟨0, false, 2⟩, 5⟩]⟩])]
+    ¬ LookAhead 2 [0] c ∧
+    (recover (fun _ => []) 2 1 [0] c (fun _ => false)).used = [⟨0, false, 1⟩] ∧
+    (recover (fun _ => []) 2 1 [0] c (fun _ => false)).nextOf (0, false) = 2 ∧
+    balance (recover (fun _ => []) 2 1 [0] c (fun _ => false)) = 50 ∧ ledgerBalance [0] (allTxs c) = 55 := by
+  refine ⟨?_, by decide, by decide, by decide, by decide⟩
+  intro h
+  have := h [] 1 _ [] rfl ⟨0, false, 2⟩ (by decide) (by decide)
+  revert this; decide
+
+/-- DEFECT (real code, reproduced through the engine; oracle key `resume-unwatched-output`): `Wallet.recovery` rebuilds
+    the watched outpoints of a resumed recovery from `TxStore.UnspentOutputs` (wallet.go:732), which omits outputs
+    that are leased (`LeaseOutput`) and outputs spent by an unmined transaction — unlike the start-up rescan, which
+    uses `OutputsToWatch` for exactly that reason.  Block 1 pays wallet address 0 (50); recovery finds it.  Then
+    (i) the output is leased, or (ii) an unmined transaction 2 spending it reaches the wallet; the wallet stops, block 2
+    confirms transaction 2 (paying somebody else), the wallet restarts: the resumed recovery does not notice
+    transaction 2.  In (i) the output is unspent for the wallet once the lease ends (balance 50, truth 0); in (ii)
+    transaction 2 stays unmined forever.  All other hypotheses of `C16_complete_resumed_partial` hold; without the
+    lease / unmined transaction the spend is found.  Fix: repo-patches/fix-C16-resurrect-outputs-to-watch.diff. -/
+theorem C16_resumed_misses_spend_of_hidden_output :
+    let p : Chain := [(1, [⟨1, [], [⟨some ⟨0, false, 0⟩, 50⟩]⟩])]
+    let rest : Chain := [(2, [⟨2, [(1, 0)], [⟨none, 49⟩]⟩])]
+    let noInv : BranchId → List Nat := fun _ => []
+    let st0 := recover noInv 2 1 [0] p (fun _ => false)
+    let resume := fun (st : State) => recoverChain noInv 1 2 (resurrect noInv st) rest (fun _ => false) 0
+    checkWF [0] noInv (p ++ rest) = true ∧ checkLAFrom 2 [0] 1 (p ++ rest) = true ∧
+    ledgerBalance [0] (allTxs (p ++ rest)) = 0 ∧
+    -- control: nothing hidden ⇒ the spend is found
+    ((2, 2) ∈ (resume st0).txs ∧ balance (resume st0) = 0) ∧
+    -- (i) leased output
+    (∃ st1, leaseOutput st0 (1, 0) = some st1 ∧ (2, 2) ∉ (resume st1).txs ∧
+      ∃ st3, releaseOutput (resume st1) (1, 0) = some st3 ∧ balance st3 = 50) ∧
+    -- (ii) spent by an unmined transaction
+    ((2, 2) ∉ (resume (addUnmined st0 ⟨2, [(1, 0)], [⟨none, 49⟩]⟩)).txs ∧
+      (resume (addUnmined st0 ⟨2, [(1, 0)], [⟨none, 49⟩]⟩)).unmined.any (fun t => t.id == 2) = true) := by
+  refine ⟨by decide, by decide, by decide, ⟨by decide, by decide⟩, ⟨_, rfl, by decide, _, rfl, by decide⟩,
+    by decide, by decide⟩
 
 /-- The binary search always returns a block (no timestamp assumption). -/
 theorem C16_birthday_terminates (ts : Nat → Int) (b delta : Int) (best : Nat) :
